@@ -7,8 +7,8 @@ maddy's own error values, and of the compositions of several such failures into 
 * `internal/target/remote/connect.go: (*remoteDelivery).newConn`  (the MX loop and its
   "No usable MXs" failure), `lookupMX`, the part of `connectionForDomain`/`AddRcpt`/`BodyNonAtomic`
   after it (MAIL / RCPT / DATA replies are passed on, RCPT through `moduleError`),
-* `internal/target/smtp/smtp_downstream.go: (*delivery).connect`, the LMTP status conversion of
-  `(*lmtpDelivery).BodyNonAtomic`,
+* `internal/target/smtp/smtp_downstream.go: (*delivery).connect` (round 9: with its AUTH step and
+  `sasl.go: saslAuthDirective`), the LMTP status conversion of `(*lmtpDelivery).BodyNonAtomic`,
 * `internal/target/remote/remote.go: (*multipleErrs).Fields`    (failure of `Body` for several
   recipients).
 
@@ -145,6 +145,52 @@ def downTxErr (attempts : List (Option Err)) (after : After) : Option Err :=
   | some (some l) => some (transparent l)
   | some none => none
   | none => afterErr after
+
+/-! ### `target.smtp` / `target.lmtp` with `auth` (round 9): `saslAuthDirective` + the AUTH step of
+`(*delivery).connect` -/
+
+/-- the `auth` directive of the downstream target (`sasl.go: saslAuthDirective`); `forward authed`:
+whether the client of the message authenticated itself (`msgMeta.Conn.AuthUser` / `AuthPassword`) -/
+inductive AuthCfg
+  | off
+  | plain
+  | forward (authed : Bool)
+  | external
+deriving DecidableEq, Repr, Inhabited
+
+/-- what the next hop does with the AUTH command: accepts it (235), answers with any other reply
+(`toSMTPErr` of the go-smtp client: a `*smtp.SMTPError`), or breaks the exchange (connection dropped,
+a line that is no reply, a challenge the mechanism has no answer to): an error value without any
+classification -/
+inductive AuthAns
+  | ok
+  | reply (c : Nat) (en : Ench) (m : List Nat)
+  | broken
+deriving Repr, Inhabited
+
+/-- `"Authentication is required"` -/
+def authRequiredMsg : List Nat :=
+  [65, 117, 116, 104, 101, 110, 116, 105, 99, 97, 116, 105, 111, 110, 32, 105, 115, 32, 114, 101, 113, 117, 105, 114, 101, 100]
+
+/-- The AUTH step of `connect` on an established connection: the error of the client factory or of
+`Client().Auth` is returned AS IT IS (no `moduleError`, no `wrapClientErr`: a 552 is not rewritten);
+`none` = no `auth` configured or accepted. -/
+def downAuthErr : AuthCfg → AuthAns → Option Err
+  | .off, _ => none
+  | .forward false, _ => some (.smtp 530 ⟨5, 7, 0⟩ authRequiredMsg)
+  | _, .ok => none
+  | _, .reply c en m => some (.rawSmtp c en m)
+  | _, .broken => some .plain
+
+/-- transaction of the downstream target with `auth`: endpoints, then AUTH, then the rest -/
+def downAuthTxErr (attempts : List (Option Err)) (cfg : AuthCfg) (ans : AuthAns) (after : After) : Option Err :=
+  match downLoop none attempts with
+  | some (some l) => some (transparent l)
+  | some none => none
+  | none =>
+    match downAuthErr cfg ans with
+    | some e => some e
+    | none => afterErr after
 
 /-! ### `multipleErrs`: one error for several recipients -/
 
